@@ -14,6 +14,7 @@ Case ==
   LET n  == ev.deg
       H1 == TLCEval(GeneratedN(n, SeqSet(ev.gens)))
       H2 == TLCEval(GeneratedN(n, SeqSet(ev.gens) \cup SeqSet(ev.more)))
+      Rest == TLCEval((1..n) \ Orbit(H2, ev.red))
   IN /\ ev.count1 = Cardinality(H1)
      /\ SeqSet(ev.all1) = H1 /\ Len(ev.all1) = Cardinality(H1)          \* no duplicates
      /\ \A i \in DOMAIN ev.probes : ev.probes[i][2] = (ev.probes[i][1] \in H1)
@@ -24,6 +25,14 @@ Case ==
      /\ \A i \in DOMAIN ev.probes : ev.probes[i][3] = (ev.probes[i][1] \in H2)
      /\ (ev.viaegraph => /\ ev.eg_syms = Cardinality(H2)
                          /\ \A i \in DOMAIN ev.probes : ev.probes[i][4] = (ev.probes[i][1] \in H2))
+     (* "restricted to non-redundant slots": once the slot at position ev.red is redundant, so is its whole orbit; the  *)
+     (* class keeps the other positions Rest, its symmetries are the restrictions of H2 to Rest, and a permuted copy is  *)
+     (* equal exactly when it agrees with a member of H2 on Rest                                                         *)
+     /\ (ev.viaegraph =>
+           /\ ev.eg_slots_red = Cardinality(Rest)
+           /\ ev.eg_syms_red = Cardinality({[k \in Rest |-> h[k]] : h \in H2})
+           /\ \A i \in DOMAIN ev.probes :
+                 ev.probes[i][5] = (\E h \in H2 : \A k \in Rest : h[k] = ev.probes[i][1][k]))
 
 TraceInit == l = 1 /\ G = {Id}
 TraceNext == l <= Len(Rec) /\ Case /\ l' = l + 1 /\ UNCHANGED G
